@@ -194,6 +194,8 @@ def _ctype(t):
     m = re.match(r'^(const\s+)?(basic_)?[io]stream(<[^>]*>)?\s*&$', t)
     if m or t in ('ostream &', 'istream &', 'ifstream &', 'ofstream &'):
         return 'struct vstream *'
+    if '::' in t and '<' not in t:
+        t = re.sub(r'\b\w+::(?=\w)', '', t)   # nested class types: Outer::Inner -> Inner
     if '<' in t or '::' in t:
         raise LowerError('type outside the lowering subset: ' + t)
     if t.endswith('&'):
@@ -531,7 +533,9 @@ class Lowerer:
                 if k.get('kind') == 'CXXCtorInitializer':
                     # base-class default construction with an empty body is a no-op; anything else is unsupported
                     inner = k.get('inner', [])
-                    if k.get('baseInit') and all(self._trivial_ctor_expr(x) for x in inner):
+                    if inner and all(self._trivial_ctor_expr(x) for x in inner):
+                        # default-initialisation of a base or of a member whose class has no user constructor
+                        # arguments: scalar fields stay indeterminate (nondeterministic for CBMC, as in C++)
                         continue
                     raise LowerError(qual + ': member/base initialiser list is outside the lowering subset')
         elif kind == 'CXXDestructorDecl':
@@ -963,7 +967,10 @@ class Lowerer:
         raise LowerError('no default value found for parameter %d of %s::%s' % (index, kl, mname))
 
     def _trivial_ctor_expr(self, x):
-        return x.get('kind') == 'CXXConstructExpr' and not x.get('inner')
+        if x.get('kind') == 'CXXConstructExpr' and not x.get('inner'):
+            return True
+        # array members: ArrayInitLoopExpr / implicit value-less construction of each element
+        return False
 
     def _has_loop(self, n):
         if n.get('kind') in ('ForStmt', 'WhileStmt', 'DoStmt'):
